@@ -557,6 +557,22 @@ var streamConsts = map[string]constDef{
 	"k.authority":        {"KEEPER_authority", tAddrStr},
 }
 
+// onStorePrims: the same primitive table, written against model/StreamStoreWorld.v: every primitive that takes the world
+// is the adapter os_<name> over the byte-level store (readers return an outcome there: the generated accessors can panic)
+func onStorePrims(src map[string]fnSig) map[string]fnSig {
+	out := map[string]fnSig{}
+	for k, v := range src {
+		if v.stateful || v.reads {
+			v.coq = "os_" + v.coq
+			if v.reads && strings.HasPrefix(v.coq, "os_str_") {
+				v.impure = true
+			}
+		}
+		out[k] = v
+	}
+	return out
+}
+
 func u64(coq string, reads bool) fnSig {
 	return fnSig{coq: coq, reads: reads, results: []gtype{tUint64}, dropCtx: reads}
 }
@@ -728,6 +744,13 @@ var modules = map[string]*moduleSpec{
 		prims: streamPrims, consts: streamConsts, world: "kworld",
 		imports:  "lib.Prelude lib.GoSdk GeneratedFns GeneratedStreamTypes model.StreamKeeperPrims",
 		typesMod: "GeneratedStreamTypes", keeperMod: "GeneratedStreamKeeper", listName: "stream_keeper_other_functions",
+		msgTypes: []string{"MsgCreateStream", "MsgClaimStream", "MsgTopUpDeposit", "MsgUpdateFlowRate", "MsgCancelStream"}},
+	"streamonstore": {name: "stream", typeFuncs: [][2]string{{"params.go", "validateBaseValidatorFee"}, {"params.go", "Params.Validate"}}, pbFiles: []string{"params.pb.go", "stream.pb.go", "tx.pb.go", "genesis.pb.go", "query.pb.go"}, goFiles: []string{"stream.go", "msg_server.go"},
+		want: []string{"addSeconds", "ClaimFromStream", "AddDeposit", "SetNewFlowRate", "CancelStreamBySenderReceiver",
+			"CreateNewStream", "CreateStream", "ClaimStream", "TopUpDeposit", "UpdateFlowRate", "CancelStream", "UpdateParams"},
+		prims: onStorePrims(streamPrims), consts: streamConsts, world: "sworld",
+		imports:  "lib.Prelude lib.GoSdk GeneratedFns GeneratedStreamTypes model.StreamStoreWorld",
+		typesMod: "", keeperMod: "GeneratedStreamKeeperOnStore", listName: "stream_keeper_onstore_other_functions",
 		msgTypes: []string{"MsgCreateStream", "MsgClaimStream", "MsgTopUpDeposit", "MsgUpdateFlowRate", "MsgCancelStream"}},
 	"wrkchain": {name: "wrkchain", pbFiles: []string{"wrkchain.pb.go", "tx.pb.go", "genesis.pb.go", "query.pb.go"}, rootFiles: []string{"genesis.go"}, typeFuncs: [][2]string{{"params.go", "validateFeeDenom"}, {"params.go", "validateFeeRegister"}, {"params.go", "validateFeeRecord"}, {"params.go", "validateFeePurchaseStorage"}, {"params.go", "validateDefaultStorageLimit"}, {"params.go", "validateMaxStorageLimit"}, {"params.go", "Params.Validate"}, {"genesis.go", "NewGenesisState"}}, goFiles: []string{"register.go", "record.go", "msg_server.go", "grpc_query.go"},
 		want: []string{"QuickCheckHeightIsNew", "GetMaxPurchasableSlots", "IncreaseInStateStorage", "RegisterNewWrkChain", "RecordNewWrkchainHashes",
